@@ -593,7 +593,8 @@ func builtinArrayMap(call FunctionCall) Value {
 			if key := arrayIndexToString(index); thisObject.hasProperty(key) {
 				values[index] = iterator.call(call.runtime, callThis, thisObject.get(key), index, this)
 			} else {
-				values[index] = Value{}
+				// A hole stays a hole (ECMA 262 15.4.4.19 step 8.c).
+				values[index] = emptyValue
 			}
 		}
 		return objectValue(call.runtime.newArrayOf(values))
